@@ -1,12 +1,12 @@
-use std::num::NonZeroU8;
+use std::num::NonZeroUsize;
 
 use crate::{Error, KeyName};
 
-pub fn validate<K: KeyName + ?Sized>(s: &str) -> Result<NonZeroU8, Error> {
+pub fn validate<K: KeyName + ?Sized>(s: &str) -> Result<NonZeroUsize, Error> {
     let colon_idx =
-        NonZeroU8::new(s.find(':').ok_or(Error::MissingColon)? as u8).ok_or(Error::MissingColon)?;
+        NonZeroUsize::new(s.find(':').ok_or(Error::MissingColon)?).ok_or(Error::MissingColon)?;
 
-    K::validate(&s[colon_idx.get() as usize + 1..])?;
+    K::validate(&s[colon_idx.get() + 1..])?;
 
     Ok(colon_idx)
 }
